@@ -95,3 +95,8 @@ Definition adts_parse (s : bytes) : option (list adts_frame) := adts_parse_fuel 
 Definition adts_frame_eqb (a b : adts_frame) : bool :=
   (ad_profile a =? ad_profile b) && (ad_sidx a =? ad_sidx b) && (ad_chan a =? ad_chan b) &&
   bytes_eqb (ad_payload a) (ad_payload b).
+
+(* one ADTS frame as the packetizer emits it, and what the parser must return for it *)
+Definition adts_frame_bytes (a : asc) (pay : bytes) : bytes := to_adts_header a (zlen pay) ++ pay.
+Definition adts_expect (a : asc) (pay : bytes) : adts_frame :=
+  {| ad_profile := asc_obj a - 1; ad_sidx := asc_sidx a; ad_chan := asc_chan a; ad_payload := pay |}.
